@@ -15,6 +15,7 @@ def extra(ctx):
     import glue_checks
     glue_checks.real_grammar_suite(ctx, {'valid', 'score'}, ctx.budget(100, 1000), nbest=True)
     search_checks.float_order_suite(ctx, ctx.budget(1500, 15000))
+    glue_checks.lazy_suite(ctx, ctx.budget(40, 400), batch=True)      # n-best inside calls with failing / over-long sentences
 
 
 def run(ctx):
